@@ -18,8 +18,10 @@ def make_tables(rng):
     return tables
 
 
-TRICKY_TEXTS = [b"aaab", b"aab", b"ababc", b"ananas", b"abab", b"xaab", b"aaa", b"abcabd", b"a_b", b"mississippi"]
-TRICKY_PATTERNS = [b"%aab", b"%aab%", b"%anas", b"%abc", b"%abd", b"a%ab", b"%a_b", b"%ab%c", b"%issip%", b"%aa", b"a%a%b", b"%ssi%pi"]
+TRICKY_TEXTS = [b"aaab", b"aab", b"ababc", b"ananas", b"abab", b"xaab", b"aaa", b"abcabd", b"a_b", b"mississippi", b"x_b", b"a%", b"a%x", b"xab"]
+TRICKY_PATTERNS = [b"%aab", b"%aab%", b"%anas", b"%abc", b"%abd", b"a%ab", b"%a_b", b"%ab%c", b"%issip%", b"%aa", b"a%a%b", b"%ssi%pi",
+                   # escaped characters: after a % (the matcher backtracks into the escape), and an escaped trailing %
+                   b"%\\ab", b"%\\_b", b"a\\%", b"%\\%", b"%x\\_b", b"\\a%"]
 
 
 def _side_pred(rng, t, off):
